@@ -471,6 +471,7 @@ func checkC13(p *Prog, r *Report) {
 	ruleTruthfulStatus(p, r, "R13.5")
 	rulePolicyOfTheCodeUsed(p, r)
 	ruleWholeFileComparison(p, r, reader)
+	ruleChangeSignalLogged(p, r)
 	r.Trusted = []string{"go/ssa construction", "both sides share the struct type status.status, so field names agree by construction"}
 	r.NotDec = "sufficiency of the two-slot encoding over all event histories; bzip2/removal cases at run time; clock monotonicity"
 }
@@ -1060,4 +1061,106 @@ func ruleWholeFileComparison(p *Prog, r *Report, reader *ssa.Function) {
 			"files that differ beyond the compared part are taken as equal and the device is omitted: "+bad)
 	}
 	r.floor("R13.8", "content comparisons in the reader", n, 1)
+}
+
+// ruleChangeSignalLogged: R13.9.
+func ruleChangeSignalLogged(p *Prog, r *Report) {
+	r.rule("R13.9", "do-approve learns the outcome of a compare from the log file: every constant prefix it tests log lines for (strings.HasPrefix(line, K) in doapprove.Main) is produced — a call of errlog.Info/Warning/Abort (or the format inside those functions) has a constant text starting with K — and the info channel is not switched off on this path: every value that reaches the global errlog.Quiet from a call in package doapprove is the constant false (errlog.Info prints only while Quiet is false; a suppressed 'comp: *** device changed ***' line makes do-approve record UPTODATE for a device that differs).")
+	main := p.Fn("doapprove.Main")
+	if main == nil {
+		r.fail("R13.9", "anchor|doapprove.Main", "", "not found", "")
+		return
+	}
+	// consumer constants
+	var prefixes []string
+	for _, cs := range callsOf(main) {
+		if cs.calleeName() == "strings.HasPrefix" {
+			if k, ok := constString(cs.In.Common().Args[1]); ok {
+				prefixes = append(prefixes, k)
+			}
+		}
+	}
+	// producer texts: constant first arguments of errlog functions, and constant formats inside package errlog
+	var texts []string
+	for _, fn := range allModFuncs(p) {
+		for _, cs := range callsOf(fn) {
+			name := cs.calleeName()
+			if strings.HasPrefix(name, "errlog.") || pkgOfFunc(fn) == "errlog" {
+				for _, a := range cs.In.Common().Args {
+					if k, ok := constString(a); ok {
+						texts = append(texts, k)
+					}
+				}
+			}
+		}
+		if pkgOfFunc(fn) == "errlog" {
+			for _, b := range fn.Blocks {
+				for _, in := range b.Instrs {
+					if bo, ok := in.(*ssa.BinOp); ok {
+						for _, v := range []ssa.Value{bo.X, bo.Y} {
+							if k, ok := constString(v); ok {
+								texts = append(texts, k)
+							}
+						}
+					}
+				}
+			}
+		}
+	}
+	n := 0
+	for _, k := range prefixes {
+		if k == "ERROR>>> while waiting for login prompt" {
+			continue // refinement of the ERROR>>> prefix for --brief
+		}
+		n++
+		found := false
+		for _, t := range texts {
+			if strings.HasPrefix(t, k) || strings.HasPrefix(k, strings.TrimRight(t, " ")) && len(t) >= 5 {
+				found = true
+			}
+		}
+		r.add("R13.9", "signal-produced|"+fmt.Sprintf("%q", k), p.pos(main.Pos()), fmt.Sprintf("a log line starting with %q is produced somewhere", k), found,
+			"do-approve waits for a line nobody writes: the outcome it records does not depend on the device")
+	}
+	r.floor("R13.9", "log line prefixes tested by do-approve", n, 3)
+	// stores into errlog.Quiet
+	nq := 0
+	for _, fn := range allModFuncs(p) {
+		for _, b := range fn.Blocks {
+			for _, in := range b.Instrs {
+				st, ok := in.(*ssa.Store)
+				if !ok {
+					continue
+				}
+				g, ok := st.Addr.(*ssa.Global)
+				if !ok || g.Name() != "Quiet" || g.Pkg == nil || shortPath(g.Pkg.Pkg.Path()) != "errlog" {
+					continue
+				}
+				for _, rt := range valueRoots(st.Val) {
+					pa, isP := rt.(*ssa.Parameter)
+					if !isP {
+						continue
+					}
+					owner := pa.Parent()
+					idx := -1
+					for i, q := range owner.Params {
+						if q == pa {
+							idx = i
+						}
+					}
+					for _, e := range callersOf(p.CG(), owner) {
+						if e.Site == nil || pkgOfFunc(e.Caller.Func) != "doapprove" || idx < 0 || idx >= len(e.Site.Common().Args) {
+							continue
+						}
+						nq++
+						arg := e.Site.Common().Args[idx]
+						bv, isC := constBool(arg)
+						r.add("R13.9", "info-channel-open|"+shortName(e.Caller.Func)+"|"+shortName(owner), p.ipos(e.Site), "do-approve passes the constant false for the parameter of "+shortName(owner)+" that becomes errlog.Quiet", isC && !bv,
+							"info lines (among them the compare verdict 'comp: *** device changed ***') can be suppressed in a do-approve run: a difference is recorded as UPTODATE")
+					}
+				}
+			}
+		}
+	}
+	r.floor("R13.9", "calls from do-approve that set errlog.Quiet", nq, 1)
 }
